@@ -43,7 +43,7 @@ def load_property(pid):
     for k in dir(base):
         if not k.startswith("__"): setattr(m, k, getattr(base, k))
     mods = [base] + parts
-    for k in ("THEOREMS", "LEAN_MODULES", "GEN", "TRUSTED", "ASSUMPTIONS"):
+    for k in ("THEOREMS", "LEAN_MODULES", "GEN", "TRUSTED", "ASSUMPTIONS", "PINS"):
         acc = []
         for x in mods:
             for v in getattr(x, k, []):
@@ -89,10 +89,14 @@ def differential(ctx, lines, label=""):
 def shrink_segment(ctx, seg):
     """greedy line removal for stateful histories; single ops are returned as is."""
     if len(seg) <= 2: return seg
+    bad0, _, _ = differential(ctx, seg)
+    if not bad0: return seg
+    op0 = bad0[0][1].split(" ", 1)[0]; sig0 = (bad0[0][2].split(" ")[0][:1], bad0[0][3].split(" ")[0][:1])
     def fails(s):
+        """still failing in the same way: same op name, same kind of answer on both sides (marker vs value)"""
         try:
             bad, _, _ = differential(ctx, s)
-            return bool(bad)
+            return bool(bad) and bad[0][1].split(" ", 1)[0] == op0 and (bad[0][2].split(" ")[0][:1] == "!") == (sig0[0] == "!") and not bad[0][2].startswith("?") and not bad[0][3].startswith("?")
         except Exception: return False
     cur = list(seg); changed = True; budget = 200
     # cut everything after the first failing line
@@ -151,6 +155,11 @@ def main():
             proof_broken.append("translator %s failed on the current source: %s" % (getattr(g, "__name__", g), e))
             log(traceback.format_exc())
     cov["regenerated_files_changed"] = regen
+    # source pins of the functions the hand-written models mirror
+    import pins as pinsmod
+    changed, npinned = pinsmod.compare(ctx.build, pid, [tuple(x) for x in getattr(mod, "PINS", [])])
+    cov["source_pins"] = npinned; cov["source_pins_changed"] = changed
+    for c in changed: proof_broken.append("the source text of a function mirrored by the Lean model changed: " + c)
 
     # 3. proofs + audit
     theorems = list(getattr(mod, "THEOREMS", []))
@@ -226,15 +235,55 @@ def main():
         if bad: print("VIOLATION property=%s replay=%s" % (pid, a.replay)); sys.exit(1)
         print("replay agrees on %d ops" % len(lines)); sys.exit(0)
 
+    known_printed = set()
+    def is_known(desc):
+        for k in known.get("known", []):
+            if k.get("property") == pid and re.search(k["match"], desc):
+                if k["match"] not in known_printed:
+                    print("KNOWN-FINDING: property=%s %s" % (pid, k.get("what", k["match"]))); known_printed.add(k["match"])
+                return True
+        return False
+    def run_lines(lines, label):
+        """run a batch; disagreements that match a listed known finding are reported as such and skipped
+        (the rest of the batch is still examined); returns the first unlisted disagreement as (path, bad) or None"""
+        for _ in range(20):
+            bad = run_batch(lines, label)
+            if not bad: return None
+            b = bad[0]
+            if is_known("%s | impl=%s | model=%s" % (b[1], b[2], b[3])):
+                # drop the history / line that exhibits the known finding and look at the rest
+                segs = segments(lines); pos = 0; keep = []
+                for sg in segs:
+                    if not (pos <= b[0] < pos + len(sg)): keep += sg
+                    pos += len(sg)
+                lines = keep
+                continue
+            return report(bad, lines)
+        return None
     found = None
     if driver_ok:
         batches = [("corpus", corpus_lines())]
         if hasattr(mod, "gen_ops"): batches.append(("generated", list(mod.gen_ops(rng, tier, ctx))))
         for label, lines in batches:
             if not lines: continue
-            bad = run_batch(lines, label)
-            if bad:
-                found = report(bad, lines); break
+            found = run_lines(lines, label)
+            if found: break
+    # the same op stream against an AddressSanitizer build of the working tree (modules opt in with ASAN = True):
+    # out-of-bounds reads/writes that leave the values intact are invisible to the comparison above
+    if driver_ok and not found and getattr(mod, "ASAN", False):
+        try:
+            abuild = vlib.get_build("asan"); aexe = vlib.get_harness(abuild, "asan", getattr(mod, "HARNESS_FLAGS", ""))
+        except vlib.BuildError as e:
+            print("ERROR: sanitizer build failed: %s" % e); finish(2)
+        plain = ctx.harness; ctx.harness = aexe
+        env0 = ctx.mod_env; ctx.mod_env = dict(env0 or {}, ASAN_OPTIONS="detect_leaks=0:allocator_may_return_null=1")
+        frac = getattr(mod, "ASAN_FRACTION", 1.0 if tier == "quick" else 0.5)
+        for label, lines in batches:
+            if not lines or found: continue
+            sub = lines if frac >= 1.0 or label == "corpus" else [l for i, l in enumerate(lines) if (i * 7919) % 1000 < frac * 1000 or l.startswith("@")]
+            found = run_lines(sub, "asan-" + label)
+        cov["asan_ops"] = True
+        ctx.harness = plain; ctx.mod_env = env0
     # property-specific extra monitors (sanitizer builds, thread runs, compiled C++ programs, ...)
     extra_v = []
     if hasattr(mod, "extra") and not found:
@@ -251,8 +300,7 @@ def main():
             r2 = random.Random("%s-search-%d-%d" % (pid, seed, s))
             lines = list(mod.gen_ops(r2, "thorough" if s > 1 else tier, ctx))
             if hasattr(mod, "search_ops"): lines = list(mod.search_ops(r2, ctx, proof_broken)) + lines
-            bad = run_batch(lines, "search")
-            if bad: found = report(bad, lines)
+            found = run_lines(lines, "search")
         cov["search_rounds"] = s
 
     cov["evaluations"] = evaluations; cov["distinct_nontrivial"] = len(distinct)
@@ -260,20 +308,13 @@ def main():
     cov["samples"] = samples; cov["ops_histogram"] = dict(stats)
     cov["proof_broken"] = proof_broken
 
-    def is_known(desc):
-        for k in known.get("known", []):
-            if k.get("property") == pid and re.search(k["match"], desc):
-                print("KNOWN-FINDING: property=%s %s" % (pid, k.get("what", k["match"]))); return True
-        return False
-
     code = 0
     if found:
         path, b = found
         desc = "%s | impl=%s | model=%s" % (b[1], b[2], b[3])
-        if not is_known(desc):
-            violations.append(desc)
-            print("DISAGREE: %s\n  impl : %s\n  model: %s" % (b[1][:400], b[2][:400], b[3][:400]))
-            print("VIOLATION property=%s replay=%s" % (pid, path)); code = 1
+        violations.append(desc)
+        print("DISAGREE: %s\n  impl : %s\n  model: %s" % (b[1][:400], b[2][:400], b[3][:400]))
+        print("VIOLATION property=%s replay=%s" % (pid, path)); code = 1
     for desc, path in extra_v:
         if not is_known(desc):
             violations.append(desc); print("VIOLATION property=%s replay=%s" % (pid, path)); code = 1
